@@ -18,7 +18,11 @@
 //
 // The pools of the eq, display and prog routes contain, next to the structural near misses, the
 // closest distinct LEAF values (forms.go: ints that collide as float64 / int32, adjacent floats,
-// strings differing in the last rune or by a blank, ranges / any-objects holding such ints).
+// strings differing in the last rune or by a blank, ranges / any-objects holding such ints) and
+// the unicode folds of strings (forms.go strFoldGroups: NFC-normal strings that collide under
+// compatibility normalisation, case / width folding, stripping of marks, ignorables or emoji
+// modifiers; all groups at a str root, the first two below containers and in any-objects). The
+// JSON library route carries one string sampling these classes.
 //
 // The oracles are the algebraic laws plus valuni.StructEq and a shadow model of the mutations.
 package c13
@@ -43,7 +47,7 @@ func (c13) Info(tier string) fw.Info {
 		Level: "exploration",
 		Rule: "cases: one per (route, library, static type T) over every type of depth <= 2 of {int,float,bool,str,null,range,[T],{a:T},{a:T,b:U},{?},?T} (thorough: wider pools, " +
 			"seed-sampled depth-3 types, 10x histories). eq: a pool of values of T containing equal values, single-position near misses (last element, one field, Some/none, " +
-			"inclusive/exclusive range, any-object key on one side only), closest distinct leaf values (ints above 2^53 / 2^32 apart, adjacent floats, strings differing in the last rune) and unrelated values, all ordered pairs and all triples. clone: every pool value, seed-generated histories of 1-20 " +
+			"inclusive/exclusive range, any-object key on one side only), closest distinct leaf values (ints above 2^53 / 2^32 apart, adjacent floats, strings differing in the last rune, NFC-normal strings that collide under compatibility normalisation / case or width folding / stripping of marks, ignorables and emoji modifiers) and unrelated values, all ordered pairs and all triples. clone: every pool value, seed-generated histories of 1-20 " +
 			"mutations at random depth. json/display/prog: every pool value that the route can carry; prog-forms: per type and window of leaf-edge groups one program over <= 14 values (thorough 20) printing all pairs through == and !=, and neighbouring pairs through fn parameters, if, [a]==[b], (?a)==(?b), new{w:a}==new{w:b}, [b].contains(a) and match arms. non-trivial = eq: the pool contained both an equal and an unequal pair of distinct " +
 			"instances; clone: at least one mutation was applied below the root and both sides were compared afterwards; json: a round trip was completed and compared; " +
 			"display: both libraries rendered; prog: both backends ran to completion; distinct = distinct (route, lib, type, value list / history seed)",
@@ -335,6 +339,19 @@ func basePool(p payload) []vu.Val {
 			if tp.T.K == vu.TStr {
 				vals = append(vals, replaceAt(vals[0], tp.Path, vu.StrV(nonNFC)))
 				break
+			}
+		}
+	}
+	// the JSON routes: one string that carries a member of most fold classes of forms.go (the text
+	// must come back code point for code point)
+	if p.Route == "json" || p.Route == "prog-json" {
+	search:
+		for _, v := range vals {
+			for _, tp := range vu.TypedPositions(v, p.T) {
+				if tp.T.K == vu.TStr {
+					vals = append(vals, replaceAt(v, tp.Path, vu.StrV(foldSampler)))
+					break search
+				}
 			}
 		}
 	}
